@@ -46,7 +46,7 @@ def run(ctx):
     prog = common.view(ctx, "default")
     lib = prog.lib
     roles = common.role_fields(ctx, lib, want=("repetition", "min_repetitions", "min_substring_length"))
-    ctx.rule("DEF-1", "RegExpConfig::new(): every boolean option off, both thresholds 1")
+    ctx.rule("DEF-1", "every used argument-less producer of the settings (RegExpConfig::new, a derived Default once something calls it): every boolean option off, both thresholds 1")
     common.def1(ctx, lib)
     cons = constructors(lib)
     if not ctx.floor("THR-G2", "Grapheme constructor functions", len(cons), 2):
